@@ -4,7 +4,7 @@ for binary classification tasks.
 
 from typing import Callable
 
-from numpy import add, array, searchsorted, sqrt, unique, zeros
+from numpy import add, array, sqrt, unique, zeros
 from pandas import DataFrame, Series, crosstab
 from scipy.stats import chi2_contingency
 
@@ -181,18 +181,25 @@ class BinaryCarver(BaseCarver):
         # all indices that may be duplicated
         index_values = array([groupby.get(index_value, index_value) for index_value in xtab.index])
 
-        # all unique indices deduplicated
-        unique_indices = unique(index_values)
+        # all unique indices deduplicated (sorted), position of first occurence and inverse mapping
+        unique_indices, first_indices, inverse = unique(
+            index_values, return_index=True, return_inverse=True
+        )
 
         # initiating summed up array with zeros
         summed_values = zeros((len(unique_indices), len(xtab.columns)))
 
         # for each unique_index found in index_values sums xtab.Values at corresponding position
         # in summed_values
-        add.at(summed_values, searchsorted(unique_indices, index_values), xtab.values)
+        add.at(summed_values, inverse, xtab.values)
+
+        # keeping the order of the crosstab
+        kept_order = first_indices.argsort()
 
         # converting back to dataframe
-        return DataFrame(summed_values, index=unique_indices, columns=xtab.columns)
+        return DataFrame(
+            summed_values[kept_order], index=unique_indices[kept_order], columns=xtab.columns
+        )
 
     def _association_measure(self, xtab: DataFrame, n_obs: int) -> dict[str, float]:
         """Computes measures of association between feature and target by crosstab.
